@@ -7,7 +7,10 @@ with the query fully inside the coverage, the generic layer is never opaque, and
 the layer stack is guarded by renders_query and is_opaque (C14.b); request combination only
 merges adjacent layers and is refused whenever an attribute that changes pixels differs
 (C14.c); images are added and merged in list order starting from the background image
-(C14.d)."""
+(C14.d).
+Added in round 4: ranges of sources are merged unfiltered (a source without range makes the layer
+unlimited), the opacity of a layer is never tested by truthiness and fades exactly below 1.0
+(C14.i); a group layer is as opaque as what it draws (C14.b)."""
 import ast
 
 from ..engine import rule, run_property
